@@ -6,6 +6,7 @@ composing C13 (routing), C15 (placement, quotas), C16 (tenant keys), C17 (fan-ou
 Notes: notes/ClusterCompose.md.
 -/
 import SemaModel.ClusterCompose.Relocate
+import SemaModel.ClusterCompose.Listed
 namespace Sema.ClusterCompose
 open Sema List
 
@@ -97,6 +98,24 @@ theorem Cluster_refines_limits (cfg : Cfg) (r : Bytes → Name) {c : Cluster} {m
     (hI : Inv r c) (hR : Rel r m c) (hok : StepOK cfg r c m u op) (hC : CountInv cfg c) (h0 : 0 ≤ cfg.maxC) :
     CountInv cfg (stepR cfg r c u op).1 :=
   step_count cfg hI hR hok hC h0
+
+/-- **The record lists exactly the shards that exist** — second half (the first half is in
+`Cluster_refines_readout`: every shard directory is listed): every shard id a record lists has its
+directory at the owner of the id, after any request.  Under `fits` a shard is created only when a
+point is waiting for it (`distribute_created_assigned`), so the creating insert also writes it. -/
+theorem Cluster_refines_listed (cfg : Cfg) (r : Bytes → Name) {c : Cluster} {m : Ref} {u : Bytes} {op : Op}
+    (hI : Inv r c) (hR : Rel r m c) (hok : StepOK cfg r c m u op) (hL : Listed r c) : Listed r (stepR cfg r c u op).1 :=
+  step_listed cfg hI hR hok hL
+
+/-- both side invariants along a whole history (with `Cluster_refines_collection`) -/
+theorem Cluster_refines_side (h : Bytes → Nat) (cfg : Cfg) (S : List Name) (h0 : 0 ≤ cfg.maxC) :
+    ∀ (H : List Req) (c : Cluster) (m : Ref), Inv (routeOf h S) c → Rel (routeOf h S) m c → HistOK cfg (routeOf h S) c m H →
+      CountInv cfg c → Listed (routeOf h S) c →
+      CountInv cfg (run h cfg (fun _ => S) c H).1 ∧ Listed (routeOf h S) (run h cfg (fun _ => S) c H).1
+  | [], _, _, _, _, _, hC, hL => ⟨hC, hL⟩
+  | q :: rest, c, m, hI, hR, hok, hC, hL => by
+    obtain ⟨i1, i2, _⟩ := step_refines cfg hI hR hok.1
+    exact Cluster_refines_side h cfg S h0 rest _ _ i1 i2 hok.2 (step_count cfg hI hR hok.1 hC h0) (step_listed cfg hI hR hok.1 hL)
 
 /-! ### non-vacuity: three servers, a hand-made hash without ties, two tenants -/
 
@@ -279,6 +298,24 @@ theorem Cluster_sync_exists (h : Bytes → Nat) (S S' : List Name) (enc : Enc) (
       | some P => rw [hsh] at hk; cases hk; exact henc.ptsNe P)
     (fun _ _ => rfl) hcov (init_of_inv enc hI _ (fun _ => rfl)) .init (fun _ _ => rfl) hall
   exact synced_of_moved (r := routeOf h S) (r' := routeOf h S') (fun _ => rfl) (fun _ => rfl) hp (relocate_moved hI _ hnd hh)
+
+/-- the side invariants survive the relocation too -/
+theorem Cluster_sync_side (cfg : Cfg) {r r' : Bytes → Name} {c c' : Cluster} (hm : MovedTo r r' c c')
+    (hI : Inv r c) (hC : CountInv cfg c) (hL : Listed r c) : CountInv cfg c' ∧ Listed r' c' := by
+  constructor
+  · intro n k P h
+    rw [hm.sh] at h
+    split at h
+    · exact hC _ _ _ h
+    · cases h
+  · intro n k rec h sid hs
+    obtain ⟨hk, hsl⟩ := hm.wf n k rec h
+    rw [hk, hm.db n _ _ hsl] at h
+    split at h
+    · rw [hm.sh]
+      simp only [skey, if_true]
+      exact hL _ _ _ h sid hs
+    · cases h
 
 /-- which owners change (C13_add): after a server `x` was ADDED, every shard directory of the
 synced cluster is on `x` or where it was; … -/
